@@ -24,6 +24,7 @@
 package main
 
 import (
+	"strings"
 	"context"
 	"encoding/json"
 	"errors"
@@ -157,6 +158,23 @@ func timeoutMsg(h, r int) *queue.DecodedSSVMessage { // as Validator.createTimer
 // ---- the real system ----
 
 type subNet struct{ *tu.TestingNetwork }
+
+// flakyNet: the network of a behaviour whose id ends in "-bfail" reports an error for every broadcast although the
+// message went out.  What the node stores and refuses must not depend on the result of a broadcast (added after round-3
+// seed C15-seed5: a failed decided-message broadcast made the runner return before it saved the decided instance).
+type flakyNet struct {
+	*tu.TestingNetwork
+	w *world
+}
+
+func (n flakyNet) Broadcast(m *spectypes.SSVMessage) error {
+	err := n.TestingNetwork.Broadcast(m)
+	if n.w.bcastFail {
+		n.w.res.Counters["broadcast_faults_injected"]++
+		return fmt.Errorf("injected: broadcast failed")
+	}
+	return err
+}
 
 func (subNet) Subscribe(spectypes.ValidatorPK) error { return nil }
 
@@ -344,6 +362,7 @@ type proc struct {
 }
 
 type world struct {
+	bcastFail bool
 	full     bool
 	db       *crashDB
 	prefix   string
@@ -514,6 +533,7 @@ func newWorld(full bool, res *vh.Result, beh string) *world {
 	w := &world{full: full, db: sharedDB, prefix: fmt.Sprintf("w%d-%s", worldSeq, spectypes.BNRoleAttester.String()),
 		res: res, beh: beh, incMax: -1, loadMax: -1, everDec: -1, certTop: -1, load: "ok", loadDenied: -1,
 		startedInc: map[int]bool{}, histInc: map[int]bool{}, late: map[int]lateInfo{}}
+	w.bcastFail = strings.HasSuffix(beh, "-bfail")
 	w.p, _ = w.boot(false, "ok")
 	return w
 }
@@ -544,12 +564,12 @@ func (w *world) boot(quiet bool, rd string) (p *proc, hit bool) {
 		ValueCheckF:           valCheck,
 		ProposerF:             func(*specqbft.State, specqbft.Round) spectypes.OperatorID { return 1 },
 		Storage:               store,
-		Network:               net,
+		Network:               flakyNet{net, w},
 		Timer:                 roundtimer.NewTestingTimer(),
 		SignatureVerification: true,
 	}
 	ctrl := controller.NewController(msgID[:], share, cfg, w.full)
-	r := runner.NewAttesterRunnner(spectypes.BeaconTestNetwork, share, ctrl, tu.NewTestingBeaconNode(), net, km, valCheck, 0).(*runner.AttesterRunner)
+	r := runner.NewAttesterRunnner(spectypes.BeaconTestNetwork, share, ctrl, tu.NewTestingBeaconNode(), flakyNet{net, w}, km, valCheck, 0).(*runner.AttesterRunner)
 	stores := ibftstorage.NewStores()
 	stores.Add(spectypes.BNRoleAttester, store)
 	ctx, cancel := context.WithCancel(context.Background())
